@@ -426,6 +426,32 @@ def run(tier, seed, replay):
                 raise
             except Exception as e:
                 v(f"raises:reuse:{method}", f"{type(e).__name__}: {e}"[:200])
+        # initial kets that are not normalised: the equation is linear
+        for method in se_methods:
+            o = {"method": method, "store_states": True, "progress_bar": ""}
+            if method not in ("diag", "krylov"):
+                o.update(atol=1e-10, rtol=1e-9, nsteps=200000)
+            if method == "krylov":
+                o.update(krylov_dim=max(1, min(d - 1, 3)), nsteps=200000)
+            for scale_ in (2.0, 10.0, 0.1, 3j):
+                try:
+                    with warnings.catch_warnings():
+                        warnings.simplefilter("ignore")
+                        with core.time_limit(120):
+                            st_ = scale_ * psi0
+                            got_ = qutip.sesolve(H, st_, tl, options=o).states
+                except core.CaseTimeout:
+                    raise
+                except Exception as e:
+                    if type(e).__name__ != "IntegratorException":
+                        v(f"raises:unnormalised:{method}", f"{type(e).__name__}: {e}"[:200])
+                    continue
+                rep.evaluations += 1
+                rep.count("unnormalised/" + method)
+                err_ = max(np.abs(a.full() - sla.expm(-1j * Hm * t) @ st_.full()).max() for a, t in zip(got_, tl))
+                if err_ > 2e-5 * abs(scale_):
+                    v(f"exact:unnormalised:{method}", f"sesolve({method}) of a ket of norm {abs(scale_):g} differs from exp(-iHt) psi0 by {err_:.2e}", {"method": method, "scale": str(scale_), "dim": d})
+                    break
         # one solver object propagating operators handed over in different memory orders and storage formats, one after the
         # other: each answer is exp(-iHt) times the operator it was given
         Hc_ = H + 0.3j * (qutip.Qobj(np.triu(H.full(), 1)) - qutip.Qobj(np.triu(H.full(), 1)).dag())
